@@ -520,6 +520,11 @@ def main(argv):
                     if not unexpected:
                         known_lines.append("KNOWN-FINDING: property=%s %s %s" % (prop, fid, f["what"]))
                         r["finding_state"] = "as-listed"
+                        if tier == "thorough" and r["class"] == "failed":
+                            # thorough tier: confirm the listed finding against the native build as well (does not affect the verdict)
+                            rep = replay_natively(h, crate, logdir, r["failed"], tier)
+                            r["replay"] = rep
+                            print("  finding %s (%s): native replay %s" % (fid, h.name, "REPRODUCES" if rep["reproduced"] else "does not reproduce: " + rep["reason"]), flush=True)
                         continue
                     r["failed"] = unexpected
                     # fallthrough: treat unexpected failures as violation candidates
